@@ -179,6 +179,12 @@ def gen_lane_model(ck, wd):
         text, nprod = avx2tla.generate(os.path.join(vlib.REPO, 'src'))
         open(os.path.join(wd, 'LaneKernels.tla'), 'w').write(text)
         ck.cov['lane_model'] = 'generated from the current tree (%d kernels)' % len(nprod)
+        try:
+            ctext, sig = avx2tla.generate_chains(os.path.join(vlib.REPO, 'src'))
+            open(os.path.join(wd, 'MatChains.tla'), 'w').write(ctext)
+            ck.cov['chain_model'] = 'generated from the current tree (%d chain kernels)' % len(sig)
+        except avx2tla.ParseError as e:
+            ck.note('12-wide chain model not derived from current source (avx2tla: %s); committed fallback copy used' % e)
         return True
     except avx2tla.ParseError as e:
         ck.note('lane model not derived from current source (avx2tla: %s); the committed fallback copy is used, replay families still run' % e)
@@ -267,3 +273,51 @@ def case_from_json(c):
     if c[0] == 'lane':
         return ('lane', c[1], [tuple(p) for p in c[2]])
     return ('mat', c[1], c[2], c[3])
+
+
+def chain_leads(out, W=2):
+    """(a0,a1,a2,b0,b1,b2) of a TLC counterexample of MC_MatChain, lifted digit-wise to 64 bit"""
+    import re as _re
+    vals = {}
+    for k in ('a0', 'a1', 'a2', 'b0', 'b1', 'b2'):
+        ms = _re.findall(r'/\\ %s = (\d+)' % k, out)
+        if not ms:
+            return None
+        vals[k] = int(ms[-1])
+    phi = 1 << W
+    def lift(v):
+        def l1(h):
+            return h if h < phi // 2 else (1 << 32) - (phi - h)
+        return (l1(v >> W) << 32) | l1(v & (phi - 1))
+    return {k: lift(v) for k, v in vals.items()}
+
+
+def chain_lead_cases(kernels, lead):
+    """place the lifted counterexample in every lane of the sparse kernels and in a row of the dense ones"""
+    out = []
+    if not lead:
+        return out
+    for k in kernels:
+        ns = 24 if '512' in k else 12
+        nm = 144 if k.startswith('mmult_avx') and '4x12' not in k else (48 if 'mmult' in k else 12)
+        eight = k.endswith('_8')
+        blk = 8 if ns == 24 else 4
+        s = [0] * ns
+        for j in range(3):
+            for t in range(blk):
+                s[blk * j + t] = lead['a%d' % j]
+        m = [0] * nm
+        for row in range(nm // 12):
+            for j in range(3):
+                for t in range(4):
+                    b = lead['b%d' % j]
+                    m[12 * row + 4 * j + t] = (b & 0xFF) if eight else b
+        out.append(('mat', k, s, m))
+        # and as a column-sum witness: the four transposed columns are rows of products by coefficient 1
+        s2 = [lead['a0'], lead['a1'], lead['a2'], lead['b0']] * (ns // 4)
+        m2 = [0] * nm
+        for row in range(nm // 12):
+            for t in range(12):
+                m2[12 * row + t] = 1
+        out.append(('mat', k, s2, m2))
+    return out
